@@ -245,7 +245,7 @@ type C15 struct {
 func init() { register(&C15{base: base{id: "C15", level: "fault_enumeration"}, dw: -1}) }
 
 func (c *C15) Rule() string {
-	return "one run = one crash point of the write of a real proving-system file in one format: the writer (simdisk) crashes after k bytes so that only the k-byte prefix survives, or reports ENOSPC at k; the prefix is then read back by UnsafeReadFrom through an in-memory reader, a reader with legal short reads, or ReadSystemFromFile on a real prefix file. Run indices first enumerate the structured offsets, those the property names (header, within a byte of a section boundary, the last six bytes) first, and each structural cut point that the drawn entry point rejects is pushed through the other two as well (every offset of the 8-byte header, the first 256 bytes of and +-4 around each of the pk|vk|cs sections, a window of Write-call boundaries found by a counting writer, the last 6 bytes) for both formats; later runs draw uniform offsets. Oracle: an error, no panic, return within the watchdog. evaluations = prefixes read; non-trivial = 0 < k < file length; distinct = (format, offset)"
+	return "one run = one crash point of the write of a real proving-system file in one format: the writer (simdisk) crashes after k bytes so that only the k-byte prefix survives, or reports ENOSPC at k; the prefix is then read back by UnsafeReadFrom through an in-memory reader, a reader with legal short reads, or ReadSystemFromFile on a real prefix file. Run indices first enumerate the structured offsets, those the property names (header, within a byte of a section boundary, the last six bytes) first, and each structural cut point that the drawn entry point rejects is pushed through the other two as well (every offset of the 8-byte header, the first 256 bytes of and +-4 around each of the pk|vk|cs sections, a window of Write-call boundaries found by a counting writer, the last 6 bytes) for both formats; later runs draw uniform offsets. Oracle: an error, no panic, return within the watchdog. evaluations = prefixes read; non-trivial = 0 < k < file length; distinct = (format, offset); every fifth run is an element of the enumerated CLI matrix (6 commands x 2 formats x 8 cut classes)"
 }
 func (c *C15) Assumptions() []string {
 	return []string{"a crash or interrupted copy is modelled as the file truncated to a prefix (what the property quantifies over); torn writes that corrupt bytes inside the prefix are out of its scope"}
